@@ -91,23 +91,20 @@ def addEdges (st : P1) (k : Nat) (es : List (REdge × Target)) : Except WfErr P1
 
 def isTrivial (e : REdge) : Bool := e.from_.isEmpty && e.cond.blank
 
-/-- pass 1: one row -/
+/-- pass 1: one row.  Trivial edges (blank `from`, no condition) after the first carry no
+information (padding cells) and are omitted for every row type. -/
 def pass1Row (st : P1) (k : Nat) (r : RRow) : Except WfErr P1 := do
+  let es := (r.edges.zipIdx.filter fun (e, i) => i = 0 || !isTrivial e).map (·.1)
   match r.kind with
-  | .hardExit | .looseExit => addEdges st k (r.edges.map fun e => (e, Target.exit))
+  | .hardExit | .looseExit => addEdges st k (es.map fun e => (e, Target.exit))
   | .goTo =>
-    let ds := if r.dests.length = 1 then List.replicate r.edges.length (r.dests.headD []) else r.dests
-    if ds.length ≠ r.edges.length then throw (.gotoArity k)
+    let ds := if r.dests.length = 1 then List.replicate es.length (r.dests.headD []) else r.dests
+    if ds.length ≠ es.length then throw (.gotoArity k)
     let tgts ← ds.mapM fun d => match lookupId st.ids d with
       | some t => pure (Target.row t)
       | none => throw (WfErr.unknownDest k d)
-    addEdges st k (r.edges.zip tgts)
-  | .noOp =>
-    let st ← addEdges st k (r.edges.map fun e => (e, Target.row k))
-    pure { st with prev := some k, ids := if r.rowId.isEmpty then st.ids else (r.rowId, k) :: st.ids }
+    addEdges st k (es.zip tgts)
   | _ =>
-    -- node rows: trivial edges after the first are omitted
-    let es := (r.edges.zipIdx.filter fun (e, i) => i = 0 || !isTrivial e).map (·.1)
     let st ← addEdges st k (es.map fun e => (e, Target.row k))
     pure { st with prev := some k, ids := if r.rowId.isEmpty then st.ids else (r.rowId, k) :: st.ids }
 
